@@ -1,21 +1,24 @@
 SPECIFICATION Spec
 CONSTANTS
   Calls = {"a", "b", "c"}
-  T = 3
-  MaxNow = 16
-  FixedPort = FALSE
-  CallCfg <- G3same
+  T = 2
+  MaxNow = 9
+  FixedPort = TRUE
+  CallCfg <- C3
   ReplyClasses = {"valid"}
   StrayClasses = {}
   MaxReplies = 1
   MaxStray = 0
-  MaxEnter = 2
-  MaxDelay = 2
+  MaxEnter = 1
+  MaxDelay = 1
   PeerFaults = {}
   DeadlineBeforeLock = FALSE
   NoGuard = FALSE
-  GuardPerClient = FALSE
+  GuardPerClient = TRUE
   RearmPerRead = FALSE
   NoCloseOnError = FALSE
+VIEW View
 CHECK_DEADLOCK FALSE
-CONSTRAINT Export
+INVARIANT NoBindError
+INVARIANT PortExclusive
+INVARIANT GuardExclusive
